@@ -91,6 +91,14 @@ fn short_hash(v: &Value) -> String {
 impl Report {
     /// Print KNOWN-FINDING / VIOLATION lines, write replay files, return the verdict.
     pub fn conclude(&self) -> Verdict {
+        let herr = crate::orch::harness_errors();
+        if !herr.is_empty() {
+            // no verdict from a run in which the simulator itself failed
+            for e in &herr {
+                println!("HARNESS-ERROR: {}", e);
+            }
+            return Verdict { new_violations: 0, known_hit: vec![], replay_paths: vec![] };
+        }
         let findings = load_findings();
         let mut known_hit: BTreeMap<String, usize> = BTreeMap::new();
         let mut new_violations = 0;
@@ -167,6 +175,10 @@ pub struct Evidence {
 
 impl Evidence {
     pub fn write(&self) {
+        if !crate::orch::harness_errors().is_empty() {
+            // a run without a verdict leaves the previous evidence file alone
+            return;
+        }
         let mut cov = Map::new();
         cov.insert("evaluations".into(), json!(self.evaluations));
         cov.insert("distinct_nontrivial".into(), json!(self.distinct_nontrivial));
